@@ -406,7 +406,7 @@ fn run_via_start(spec: &Spec) -> Vec<(String, String)> {
 
 fn run_via_start_once(spec: &Spec) -> Option<Vec<(String, String)>> {
     let port = free_port();
-    let exe = std::env::current_exe().expect("exe");
+    let exe = common::self_exe();
     let mut child = std::process::Command::new(exe)
         .args(["C14-child", &port.to_string(), "10000", "60", "30"])
         .stdout(std::process::Stdio::null())
